@@ -63,6 +63,21 @@ theorem replaceAll_no_first (old new : List B) (c : B) (r : List B) (ho : old = 
     simp only [hp, Bool.false_eq_true, if_false]
     rw [ih (fun x hx => h x (by simp [hx]))]
 
+/-- **a named entity is read like its character**: where the text starts with the entity, the replacement step writes the
+    character's bytes and goes on behind the entity -/
+theorem replaceAll_prefix (old new rest : List B) (h : old ≠ []) :
+    replaceAll old new (old ++ rest) = new ++ replaceAll old new rest := by
+  cases hold : old with
+  | nil => exact absurd hold h
+  | cons b r =>
+    have hp : (b :: r).isPrefixOf (b :: (r ++ rest)) = true := by
+      rw [show b :: (r ++ rest) = (b :: r) ++ rest from rfl]
+      exact List.isPrefixOf_iff_prefix.mpr (List.prefix_append _ _)
+    conv => lhs; unfold replaceAll
+    simp only [List.cons_append, reduceCtorEq, dite_false, hp, if_true]
+    congr 1
+    simp [List.drop_append]
+
 /-- every regenerated step is a plain `strings.ReplaceAll` and looks for something that starts with `&` -/
 theorem steps_start_with_amp :
     Gomjml.Gen.Parser.entityStepsPure = true ∧ ∀ st ∈ Gomjml.Gen.Parser.entityStepsB, st.1.head? = some amp := by decide
